@@ -372,7 +372,9 @@ def replay_backend_op(r):
             "clip": lambda: [cmp("clip(x, 0.7, 2.1)", N(tl.clip(Tn(x), 0.7, 2.1)), np.clip(x, 0.7, 2.1)),
                              cmp("clip(x, 0.7, None)", N(tl.clip(Tn(x), 0.7, None)), np.maximum(x, 0.7)), cmp("clip(x, None, 2.1)", N(tl.clip(Tn(x), None, 2.1)), np.minimum(x, 2.1)),
                              cmp("clip([-2,-3], 0, None)", N(tl.clip(Tn([-2.0, -3.0]), 0.0, None)), [0.0, 0.0]), cmp("clip([5,7], None, 1)", N(tl.clip(Tn([5.0, 7.0]), None, 1.0)), [1.0, 1.0])],
-            "where": lambda: [cmp("where(mask, x, y)", N(tl.where(Tn(mask, "bool"), Tn(x), Tn(y))), np.where(mask, x, y))],
+            "where": lambda: [cmp("where(mask, x, y)", N(tl.where(Tn(mask, "bool"), Tn(x), Tn(y))), np.where(mask, x, y)),
+                              # the unselected operand may be anything, also non-finite (pieces evaluated outside their domain)
+                              cmp("where([T, F, T], [1, inf, 3], [nan, 2, -inf])", N(tl.where(Tn([True, False, True], "bool"), Tn([1.0, np.inf, 3.0]), Tn([np.nan, 2.0, -np.inf]))), [1.0, 2.0, 3.0])],
             "tile": lambda: [cmp("tile(x, (2, 1))", N(tl.tile(Tn(x), (2, 1))), np.tile(x, (2, 1))), cmp("tile(x, (1, 3))", N(tl.tile(Tn(x), (1, 3))), np.tile(x, (1, 3)))],
             "gather": lambda: [cmp("gather(v, [2,0,3])", N(tl.gather(Tn(v), Tn(idx, "int"))), v[idx]), cmp("gather(x, [1,0])", N(tl.gather(Tn(x), Tn([1, 0], "int"))), x[[1, 0]])],
             "boolean_mask": lambda: [cmp("boolean_mask(x, mask)", N(tl.boolean_mask(Tn(x), Tn(mask, "bool"))), x[mask])],
